@@ -69,6 +69,7 @@ impl Check for C03 {
         cfg.buffered = cases::gen_buffered(&mut rng, &spec, 35);
         cfg.max_size = if valid { MaxSz::Default } else { MaxSz::Limit(*rng.pick(&[64usize, 1000, 70_000, 1 << 20])) };
         cfg.capacity = io::gen_capacity(&mut rng, gi.bytes.len());
+        crate::harness::gen_cfg_history(&mut rng, &mut cfg);
         cfg.eof_end = !rng.chance(1, 6);
         let mut script = io::gen_rscript(&mut rng, gi.bytes.len(), &[]);
         let input = Arc::new(gi.bytes);
